@@ -128,6 +128,18 @@ func backupDriver(param string) mc.Driver {
 
 func init() {
 	mc.Registry["backup"] = backupDriver
+	// files written by WriteTo / CopyFile are files this code writes too (C12): decoded by the independent reader at
+	// page sizes below and above the OS page size
+	hx.Registry["c12-backup"] = func(tier string) []*hx.Scope {
+		n := 5
+		if tier == "thorough" {
+			n = 7
+		}
+		cs := []apix.Cfg{{PageSize: 1024, Freelist: "array", InitialMmapSize: 1 << 20}, {PageSize: 16384, Freelist: "hashmap", NoFreelistSync: true, InitialMmapSize: 1 << 20},
+			{PageSize: 4096, Freelist: "array", InitialMmapSize: 1 << 20}}
+		bodies := []apix.Op{op("put", P("p"), "a", "X"), {K: "thin", P: P("p"), N: 3}}
+		return mk("c12-backup", []string{"twolevel", "nested"}, cs, n, 1, backupAlphabet(lifeAlphabet(1, bodies, nil, 2)), nil)
+	}
 	hx.Registry["c14-life"] = func(tier string) []*hx.Scope {
 		n, maxTx := 6, 2
 		seeds := []string{"twolevel", "freeruns"}
